@@ -99,6 +99,8 @@ def build(cfg, float_mode=False):
              level_params={'dt': cfg['dt'], 'restol': cfg['restol'], 'residual_type': cfg.get('residual_type', 'full_abs'),
                            'nsweeps': ([cfg.get('nsweeps', 1)] * (NL - 1) + [1]) if NL > 1 else cfg.get('nsweeps', 1)},
              step_params={'maxiter': cfg['maxiter']})
+    if cfg.get('e_tol') is not None:
+        d['level_params']['e_tol'] = cfg['e_tol']  # stopping by increment: loads EstimateEmbeddedError, which registers extra level status variables
     if NL > 1:
         d['space_transfer_class'] = FloatInject if float_mode else sp.Inject
         if cfg.get('finter'):
